@@ -406,7 +406,7 @@ func main() {
 	// ---- 1. words
 	boundaryWords := []uint32{0, 0xFFFFFFFF, 0x00FC0000, 0xFF03FFFF, 0x80000000, 0x40000000, 0x3F000000,
 		0x0003F000, 0x00000FC0, 0x0000003F, 0x00001041, 0x01001041, 0xC1FFF000, 0x00040000, 0x00800000}
-	nw := run.Count(200, 20000)
+	nw := run.Count(200, 5000)
 	for i := 0; i < nw; i++ {
 		r := rng.Fork(uint64(i))
 		var w uint32
@@ -431,7 +431,7 @@ func main() {
 		})
 	}
 	// ---- 2. SerializeTo on arbitrary uint8 values
-	ne := run.Count(150, 10000)
+	ne := run.Count(150, 3000)
 	for i := 0; i < ne; i++ {
 		r := rng.Fork(uint64(100000 + i))
 		f := r.Bytes(5)
@@ -559,13 +559,13 @@ func main() {
 		})
 	}
 	// ---- 6. paths
-	np := run.Count(300, 20000)
+	np := run.Count(300, 8000)
 	for i := 0; i < np; i++ {
 		r := rng.Fork(uint64(300000 + i))
 		jobs = append(jobs, func() { pathCase(run, r, i) })
 	}
 	// ---- 7. Decoded.Reverse with arbitrary uint8 pointers
-	nr := run.Count(120, 5000)
+	nr := run.Count(120, 2000)
 	for i := 0; i < nr; i++ {
 		r := rng.Fork(uint64(400000 + i))
 		jobs = append(jobs, func() { revU8Case(run, r) })
@@ -671,7 +671,7 @@ func main() {
 	}
 	run.ShardSize = (total + 7) / 8
 	if thorough {
-		run.ShardSize = (total + 31) / 32
+		run.ShardSize = (total + 127) / 128
 	}
 	if run.ShardSize < 50 {
 		run.ShardSize = 50
